@@ -21,7 +21,7 @@ theorem run_unused_cp (d : Dir) (k : Nat) (hk : 17 < k) : run d (some k) = run d
     omega
   have h' : ∀ j, hit none j = false := fun j => rfl
   simp only [run, run.afterOpen, h 0 (by omega), h 1 (by omega), h 2 (by omega), h 3 (by omega),
-    h 4 (by omega), h 10 (by omega), h 11 (by omega), h 12 (by omega), h 13 (by omega),
+    h 4 (by omega), h 5 (by omega), h 10 (by omega), h 11 (by omega), h 12 (by omega), h 13 (by omega),
     h 14 (by omega), h 15 (by omega), h 16 (by omega), h 17 (by omega), h']
 
 /-- Case analysis over the thirty directory states. -/
@@ -64,6 +64,29 @@ theorem C15_inv_damage (d : Dir) (x : Damage) (h : Inv d) : Inv (damage d x) := 
   | metaOtherVersion hh => cases hh <;> (apply dir_cases; decide)
   | _ => apply dir_cases; decide
 
+theorem runOther_unused_cp (t : Bool) (d : Dir) (k : Nat) (hk : 17 < k) : runOther t d (some k) = runOther t d none := by
+  simp only [runOther, run_unused_cp _ k hk]
+
+theorem inv_other_small (t : Bool) (k : Nat) (hk : k ≤ 17) : ∀ d : Dir, Inv d → Inv (runOther t d (some k)) := by
+  cases t <;> interval_cases k <;> (apply dir_cases; decide)
+
+theorem inv_other_none (t : Bool) : ∀ d : Dir, Inv d → Inv (runOther t d none) := by
+  cases t <;> (apply dir_cases; decide)
+
+/-- **C15 (invariant, another build on the same directory).** A start of ANOTHER build of the
+same version that ships other data — killed at any point or complete, whether or not the
+metadata it finds records its own hash — preserves the invariant of the tool under test:
+it never leaves its data behind under metadata that records OUR hash. (Before the repair
+`05762de` this was false: the in-place rebuild kept the metadata while it rewrote the index;
+`C15_foreign_needed_the_fix` below.) -/
+theorem C15_inv_foreign (d : Dir) (t : Bool) (cp : Crash) (h : Inv d) : Inv (runOther t d cp) := by
+  cases cp with
+  | none => exact inv_other_none t d h
+  | some k =>
+    by_cases hk : k ≤ 17
+    · exact inv_other_small t k hk d h
+    · rw [runOther_unused_cp t d k (by omega)]; exact inv_other_none t d h
+
 /-- **C15 (invariant, every history).** Induction over histories of any length. -/
 theorem C15_inv_history (d : Dir) (es : List Event) (h : Inv d) : Inv (history d es) := by
   induction es generalizing d with
@@ -73,6 +96,8 @@ theorem C15_inv_history (d : Dir) (es : List Event) (h : Inv d) : Inv (history d
     cases e with
     | start cp => exact C15_inv_run d cp h
     | damaged x => exact C15_inv_damage d x h
+    | memSession => exact h
+    | foreign t cp => exact C15_inv_foreign d t cp h
 
 /-- **C15 (a complete start answers from the shipped data).** From any state
 satisfying the invariant a start that is not killed answers exactly as the freshly
@@ -101,6 +126,27 @@ exactly as a freshly built database. -/
 theorem C15_recover (d : Dir) (es : List Event) (h : Inv d) :
     (run (history d es) none).answers = some true :=
   C15_answers _ (C15_inv_history d es h)
+
+/-- **C15 (an in-memory session leaves the data directory alone).** In the model `Db::in_memory()`
+performs none of the directory steps, so histories may contain such sessions anywhere
+(`C15_inv_history`, `C15_recover` quantify over them). That the REAL `open_inner(true)` writes
+nothing is checked by the correspondence: histories with an in-memory session between on-disk
+starts, from every prior state and after builds killed at the crash points. -/
+theorem C15_mem_session (d : Dir) : event d .memSession = d ∧ (runMem d).answers = some true := ⟨rfl, rfl⟩
+
+/-- What the other build's killed run looks like from our side: on our complete directory, killed
+between its commit and its metadata write, it leaves ITS data and NO metadata, so our next start
+rebuilds. -/
+theorem C15_foreign_killed_after_commit :
+    runOther false ⟨.current, .opens .current⟩ (some 13) = ⟨.absent, .opens .old⟩ ∧
+    (run (runOther false ⟨.current, .opens .current⟩ (some 13)) none).answers = some true := by decide
+
+/-- Why the repair was needed: a start that rewrites the index in place WITHOUT invalidating the
+metadata first (the code before `05762de`), killed after its commit, leaves the state below when
+it is the other build's start — metadata recording our hash over their data — and from that state
+we never recover (`C15_inv_needed`). -/
+theorem C15_foreign_needed_the_fix :
+    ¬ Inv ⟨.current, .opens .old⟩ ∧ (run ⟨.current, .opens .old⟩ none).answers = some false := by decide
 
 /-- **C15 (never current before committed).** Whatever state a start begins in —
 even one violating the invariant — and wherever it is killed, it leaves the metadata
@@ -133,7 +179,13 @@ theorem C15_inv_needed : (run ⟨.current, .opens .empty⟩ none).answers = some
 killed between index creation and commit, metadata damaged, two more killed starts. -/
 example : Inv ⟨.current, .opens .current⟩ ∧
     history ⟨.current, .opens .current⟩
-      [.damaged .indexRemoved, .start (some 11), .damaged .metaGarbage, .start (some 3), .start (some 14)]
+      [.damaged .indexRemoved, .start (some 11), .memSession, .damaged .metaGarbage, .start (some 3), .memSession, .start (some 14)]
       = ⟨.absent, .opens .current⟩ := by decide
+
+/-- Non-vacuity with another build in the history: it is killed after its commit on our complete
+directory, we are killed while repairing, it completes a start, we complete one. -/
+example : history ⟨.current, .opens .current⟩
+      [.foreign false (some 13), .start (some 11), .foreign false none, .start none]
+      = ⟨.current, .opens .current⟩ := by decide
 
 end Anything.Props.C15
